@@ -320,6 +320,9 @@ type vKDelSchedule struct {
 	StartUs    int   `json:"start_us"` // the consumer starts receiving this late
 	BusyUs     []int `json:"busy_us"`  // busy time after the k-th event
 	SubmitUs   []int `json:"submit_us"`
+	// shape of the k-th submitted configuration: 0 = a router with a neighbor, prefixes and a BFD profile,
+	// 1 = the same router with everything withdrawn, 2 = no router at all (every peer closed)
+	Shapes []int `json:"shapes"`
 }
 
 func vKDelGen(r *rand.Rand) vKDelSchedule {
@@ -349,6 +352,16 @@ func vKDelGen(r *rand.Rand) vKDelSchedule {
 			sc.SubmitUs = append(sc.SubmitUs, sc.IntervalUs+r.Intn(2*sc.IntervalUs))
 		}
 	}
+	for range sc.SubmitUs {
+		sc.Shapes = append(sc.Shapes, []int{0, 0, 1, 2}[r.Intn(4)])
+	}
+	if n := len(sc.Shapes); n >= 2 && r.Intn(2) == 0 { // ends with a shrink: something, then (almost) nothing
+		sc.Shapes[n-2] = 0
+		sc.Shapes[n-1] = 1 + r.Intn(2)
+	}
+	if len(sc.Shapes) > 0 {
+		sc.Shapes[0] = 0
+	}
 	return sc
 }
 
@@ -358,7 +371,9 @@ func TestVerifKDeliver(t *testing.T) {
 	r := vRand()
 	n := vN(24)
 	const node, ns = "node-a", "frr-k8s-system"
-	scs := []vKDelSchedule{{IntervalUs: 4000, StartUs: 9000, BusyUs: []int{0}, SubmitUs: []int{0}}} // consumer starts after the timer fired
+	scs := []vKDelSchedule{{IntervalUs: 4000, StartUs: 9000, BusyUs: []int{0}, SubmitUs: []int{0}, Shapes: []int{0}}, // consumer starts after the timer fired
+		{IntervalUs: 3000, StartUs: 0, BusyUs: []int{0}, SubmitUs: []int{0, 9000}, Shapes: []int{0, 2}}, // advertise, later close everything
+		{IntervalUs: 3000, StartUs: 0, BusyUs: []int{0}, SubmitUs: []int{0, 9000}, Shapes: []int{0, 1}}} // advertise, later withdraw everything
 	for len(scs) < n {
 		scs = append(scs, vKDelGen(r))
 	}
@@ -415,8 +430,18 @@ func TestVerifKDeliver(t *testing.T) {
 				}
 			}()
 			mk := func(k int) frrv1beta1.FRRConfiguration {
-				return frrv1beta1.FRRConfiguration{ObjectMeta: metav1.ObjectMeta{Name: key.Name, Namespace: ns},
-					Spec: frrv1beta1.FRRConfigurationSpec{BGP: frrv1beta1.BGPConfig{Routers: []frrv1beta1.Router{{ASN: uint32(64512 + k), ID: fmt.Sprintf("10.0.0.%d", k+1)}}}}}
+				c := frrv1beta1.FRRConfiguration{ObjectMeta: metav1.ObjectMeta{Name: key.Name, Namespace: ns}}
+				switch sc.Shapes[k] {
+				case 0:
+					rx := uint32(100 + k)
+					c.Spec.BGP.Routers = []frrv1beta1.Router{{ASN: 64512, ID: "10.0.0.1", Prefixes: []string{fmt.Sprintf("192.0.2.%d/32", k)},
+						Neighbors: []frrv1beta1.Neighbor{{Address: "10.2.2.254", ASN: 200, Password: fmt.Sprintf("pw%d", k), EBGPMultiHop: true, BFDProfile: "p",
+							ToAdvertise: frrv1beta1.Advertise{Allowed: frrv1beta1.AllowedOutPrefixes{Prefixes: []string{fmt.Sprintf("192.0.2.%d/32", k)}}}}}}}
+					c.Spec.BGP.BFDProfiles = []frrv1beta1.BFDProfile{{Name: "p", ReceiveInterval: &rx}}
+				case 1:
+					c.Spec.BGP.Routers = []frrv1beta1.Router{{ASN: 64512, ID: "10.0.0.1", Neighbors: []frrv1beta1.Neighbor{{Address: "10.2.2.254", ASN: 200}}}}
+				}
+				return c
 			}
 			blocked := false
 			for k, us := range sc.SubmitUs {
@@ -441,10 +466,11 @@ func TestVerifKDeliver(t *testing.T) {
 			delivered := false
 			for !blocked && !delivered && time.Now().Before(deadline) {
 				cur := frrv1beta1.FRRConfiguration{}
-				if err := cl.Get(context.TODO(), key, &cur); err == nil {
-					got, _ = json.Marshal(cur.Spec)
-					delivered = string(got) == string(want)
-				}
+				// no object at all denotes the same as an object with an empty Spec (Reconcile does not create an
+				// empty configuration when none exists)
+				_ = cl.Get(context.TODO(), key, &cur)
+				got, _ = json.Marshal(cur.Spec)
+				delivered = string(got) == string(want)
 				if !delivered {
 					time.Sleep(2 * time.Millisecond)
 				}
@@ -458,6 +484,9 @@ func TestVerifKDeliver(t *testing.T) {
 			out.Stat("deliver_schedules", 1)
 			out.Stat("deliver_submissions", len(sc.SubmitUs))
 			out.Stat("deliver_events", ev)
+			if n := len(sc.Shapes); n >= 2 && sc.Shapes[n-1] != 0 {
+				out.Stat("deliver_ends_with_shrink", 1)
+			}
 			if sc.StartUs > sc.IntervalUs {
 				out.Stat("deliver_consumer_starts_after_first_timer", 1)
 			}
